@@ -163,7 +163,8 @@ def _run_mc_models(names, workdir, tier):
             os.makedirs(md, exist_ok=True)
             logf = os.path.join(workdir, "mc_" + name + ".log")
             shutil.copy(os.path.join(SPEC, "proofs", m["tlaps"]), md)
-            shutil.copy(os.path.join(SPEC, m["module"]), md)
+            if m.get("module"):
+                shutil.copy(os.path.join(SPEC, m["module"]), md)
             f = open(logf, "w")
             p = subprocess.Popen(["tlapm", "--threads", "4", m["tlaps"]], stdout=f, stderr=subprocess.STDOUT, cwd=md)
             procs.append((name, m, p, f, logf, time.time()))
